@@ -265,7 +265,12 @@ let proto file =
                    | _ -> None) (String.split_on_char ',' items)
              | _ -> []) (find "PEND") in
          (* the oracle flag of an applied download: no other download of the id is under way afterwards *)
-         let dls_flagged = List.map (fun ((k, a), v) -> (((k, a), v), not (List.mem (k, a) real_pending))) dls in
+         (* downloads dropped on arrival (a download of a later request of the id had arrived before): no content *)
+         let drops = List.filter_map (fun l -> match split_ws l with
+             | [ _; _; k; a ] -> (try Some ((match k with "1" -> AMesh | "2" -> AImage | _ -> AAudio), nd a) with _ -> None)
+             | _ -> None) (find "DROP") in
+         let dls_flagged = List.map (fun (k, a) -> (((k, a), None), not (List.mem (k, a) real_pending))) drops
+                           @ List.map (fun ((k, a), v) -> (((k, a), Some v), not (List.mem (k, a) real_pending))) dls in
          (* request() runs inside the receiver: an announcement handled in THIS frame may already have
             its download applied by a process_*_assets system that runs later in the same frame *)
          List.iter (fun l -> match split_ws l with
